@@ -308,6 +308,99 @@ def v2v_cases(ctx, n):
                                      {"correspondence": "BayesVec.v vs BayesianOptimizationOracle._vector_to_values", "case": infos[j]}))
     return fails, dict(v2v_cases=n, v2v_diffs=nd, v2v_coqc_wall_s=round(wall, 1), v2v_shared_name=sum(1 for i in infos if len(set(x.split(":")[0] for x in i["space"])) < len(i["space"])))
 
+HBV_HEADER = """From stdpp Require Import gmap list.
+From Coq Require Import ZArith.
+From KT Require Import Space Discover HB HBValues.
+Open Scope positive_scope.
+(* one case: the five tuner/* names, the parent (its values, its id) if the trial is a promotion, the sample otherwise,
+   (bracket, round, epochs, initial epoch) read from the real bracket book / _get_epochs, the values the real oracle issued *)
+Definition hbv_ok (cs : list name * option (list (name*value) * value) * list (name*value) * (nat*nat*Z*Z) * list (name*value)) : bool :=
+  let '(tn, par, sample, (lb, rd, ep, ini), want) := cs in
+  match tn with
+  | [a1; a2; a3; a4; a5] =>
+      let t := {| n_trial_id := a1; n_epochs := a2; n_initial := a3; n_bracket := a4; n_round := a5 |} in
+      let i := {| i_label := lb; i_bracket := lb; i_round := rd; i_epochs := ep; i_initial := ini;
+                  i_parent := match par with Some _ => Some 0%nat | None => None end |} in
+      bool_decide (hb_payload t (fun _ => match par with Some (pv, _) => list_to_map pv | None => ∅ end)
+                              (fun _ => match par with Some (_, p) => p | None => VStr 1 end) (list_to_map sample) i = list_to_map want)
+  | _ => false
+  end.
+Definition cases : list (list name * option (list (name*value) * value) * list (name*value) * (nat*nat*Z*Z) * list (name*value)) := [
+"""
+HBV_FOOTER = "\n].\nEval vm_compute in (map hbv_ok cases).\n"
+TUNER_KEYS = ["tuner/trial_id", "tuner/epochs", "tuner/initial_epoch", "tuner/bracket", "tuner/round"]
+
+
+def hbv_cases(ctx, n):
+    """the values the real HyperbandOracle issues (round 0 and promotions, several workers, ties, failures) vs HBValues.hb_payload"""
+    import keras_tuner as kt
+    from keras_tuner.engine import hyperparameters as hpm
+    from keras_tuner.tuners import hyperband
+    from checks.c13 import cv, cname
+    warnings.filterwarnings("ignore")
+    terms = []; infos = []; promos = 0; deep = 0
+    for k in range(n):
+        seed = ctx.rng.randint(0, 2 ** 40); rng = random.Random(seed)
+        hps = hpm.HyperParameters()
+        (gen_shared_space if rng.random() < 0.25 else gen_space)(rng, hps)
+        o = hyperband.HyperbandOracle(objective=kt.Objective("score", rng.choice(["min", "max"])), max_epochs=rng.choice([3, 4, 8, 9]), factor=rng.choice([2, 3]),
+                                      seed=rng.randint(1, 10 ** 6), hyperparameters=hps, max_retries_per_trial=rng.choice([0, 1]), max_consecutive_failed_trials=99)
+        d = tempfile.mkdtemp(prefix="ktv05h_")
+        try:
+            o._set_project_dir(d, "p"); o._display.verbose = 0
+            W = rng.randint(1, 3); held = {}
+            for step in range(rng.randint(20, 70)):
+                tn = "w%d" % rng.randrange(W)
+                if tn in held:
+                    t = held.pop(tn); x = rng.random()
+                    try:
+                        if x < 0.85:
+                            o.update_trial(t.trial_id, {"score": float(rng.randint(0, 4))}); t.status = "COMPLETED"
+                        else:
+                            t.status = "INVALID" if x < 0.95 else "FAILED"
+                        o.end_trial(t)
+                    except Exception:
+                        lc._release(o); break
+                    continue
+                try:
+                    t = o.create_trial(tn)
+                except Exception:
+                    lc._release(o); break
+                if t.status != "RUNNING":
+                    if not held: break
+                    continue
+                held[tn] = t
+                vals = dict(t.hyperparameters.values)
+                where = [(br["bracket_num"], r, e["past_id"]) for br in o._brackets for r, rnd in enumerate(br["rounds"]) for e in rnd if e["id"] == t.trial_id]
+                if len(where) != 1 or len(terms) >= 40 * n:
+                    continue        # a re-issued retry keeps its first entry: still exactly one
+                b, r, past = where[0]
+                I = emit.Intern()
+                tnames = emit.cl(cname(x, I) for x in TUNER_KEYS)
+                cvals = lambda dct: emit.cl("(%s, %s)" % (cname(kk, I), cv(x, I)) for kk, x in sorted(dct.items()))
+                if past is not None:
+                    pv = dict(o.trials[past].hyperparameters.values); promos += 1; deep += "tuner/trial_id" in pv
+                    par = "Some (%s, %s)" % (cvals(pv), cv(past, I)); sample = "[]"
+                else:
+                    par = "None"; sample = cvals({kk: x for kk, x in vals.items() if kk not in TUNER_KEYS[1:]})
+                info = "(%s, %s, %s, %s)" % (emit.nat(b), emit.nat(r), emit.z(o._get_epochs(b, r)), emit.z(o._get_epochs(b, r - 1) if r > 0 else 0))
+                terms.append("(%s, %s, %s, %s, %s)" % (tnames, par, sample, info, cvals(vals)))
+                infos.append(dict(seed=seed, trial=t.trial_id, bracket=b, round=r, parent=past, values={kk: repr(x) for kk, x in vals.items()}))
+        finally:
+            shutil.rmtree(d, ignore_errors=True)
+    verdicts, errors, wall = runcoq.run_cases(ctx.workdir, HBV_HEADER, terms, HBV_FOOTER, chunk=150, prefix="hbv")
+    fails = []
+    for path, rc, err in errors:
+        fails.append(Failure("harness", "C05/coqc", "coqc failed on %s: %s" % (path, err[-300:]), {"correspondence": "C05 hbv", "file": path}))
+    nd = 0
+    for j, v in enumerate(verdicts):
+        if v != "true":
+            nd += 1
+            if nd <= 2:
+                fails.append(Failure("diff", "C05/hbvalues-model-vs-impl", "HBValues.hb_payload and the values HyperbandOracle issued disagree on %r" % (infos[j],),
+                                     {"correspondence": "HBValues.v vs HyperbandOracle._populate_space/_random_trial", "case": infos[j]}))
+    return fails, dict(hbv_cases=len(terms), hbv_promotions=promos, hbv_promotions_of_promoted=deep, hbv_diffs=nd, hbv_coqc_wall_s=round(wall, 1))
+
 
 def run(ctx):
     import glob, json
@@ -331,8 +424,10 @@ def run(ctx):
             samples.append(dict(cfg=cfg, space=space, first_trials=[(a, {k: repr(v) for k, v in b.items()}) for a, b in issued[:2]]))
     vf, vstats = v2v_cases(ctx, ctx.n(200, 2000))
     failures.extend(vf); stats.update(vstats)
-    return dict(evaluations=n + vstats["v2v_cases"], distinct_nontrivial=distinct, traces_validated=stats["issued"],
-                rule="(model correspondence: BayesianOptimizationOracle._vector_to_values on generated spaces incl. Fixed entries and shared names, random and edge vectors, vs BayesVec.v evaluated in Coq) "
+    hf, hstats = hbv_cases(ctx, ctx.n(40, 300))
+    failures.extend(hf); stats.update(hstats)
+    return dict(evaluations=n + vstats["v2v_cases"] + hstats["hbv_cases"], distinct_nontrivial=distinct, traces_validated=stats["issued"],
+                rule="(model correspondence: every trial issued by the real HyperbandOracle on short multi-worker histories - round 0 and promotions - vs HBValues.hb_payload evaluated in Coq; BayesianOptimizationOracle._vector_to_values on generated spaces incl. Fixed entries and shared names, random and edge vectors, vs BayesVec.v evaluated in Coq) "
                      "search spaces of 1-15 entries over Int/Float (linear, log, reverse_log, +-step), Choice, Boolean, Fixed with conditions nested to depth 4; 35% of the "
                      "cases declare a further sub-space inside trials; worker-pool histories (1-4 tuners, scores, INVALID/FAILED outcomes, retries) on the real random, grid, "
                      "Hyperband and Bayesian oracles; every RUNNING trial is checked: value for exactly the active names, each value in its domain (type, range, lattice, "
